@@ -7,6 +7,7 @@ from __future__ import absolute_import, division, print_function
 import sys
 import os
 import errno
+import platform
 from collections import deque
 
 # Import ioflo libs
